@@ -51,8 +51,10 @@ def cases(E):
                        lambda B, exists=exists: {"program": program(B), "emitter": emitter(B), "outcome": B.int("outcome"), "file_exists": exists},
                        target=[P + "assemble_with_emitter"], overrides=OVR_AWE))
     for outcome in (0, 7):
-        cs.append(Case(H + "assemble_contract", f"callee {'returns a status' if outcome == 0 else 'raises OSError'}",
-                       lambda B, outcome=outcome: {"program": program(B), "status": B.int("status"), "outcome": outcome}, target=[P + "assemble"], overrides=OVR_TOP))
+        for mp in (None, "low", "low2", "high"):
+            cs.append(Case(H + "assemble_contract", f"callee {'returns a status' if outcome == 0 else 'raises OSError'},mapping={mp}",
+                           lambda B, outcome=outcome, mp=mp: {"program": program(B), "status": B.int("status"), "outcome": outcome, "mapping": mp},
+                           target=[P + "assemble"], overrides=OVR_TOP))
         for mapping in (None, "low", "high"):
             for copier in (False, True):
                 cs.append(Case(H + "assemble_as_patch_contract", f"outcome={outcome},mapping={mapping},copier={copier}",
@@ -69,7 +71,7 @@ def cases(E):
 
 
 OPTIONAL_CHECKS = {"assemble_with_emitter_contract": ["exception_only_on_failure", "no_success_announced_on_exception", "same_call"],
-                   "assemble_contract": ["exception_only_when_callee_raises", "status_propagated", "sfc_writer_on_output_file"],
+                   "assemble_contract": ["exception_only_when_callee_raises", "status_propagated", "sfc_writer_on_output_file", "mapping_applied"],
                    "assemble_as_patch_contract": ["exception_only_when_callee_raises", "status_propagated", "ips_writer_on_output_file", "patch_framing", "mapping_applied"],
                    "assemble_string_contract": ["raises_only_when_a_phase_raised", "none_only_when_all_phases_clean", "phases_in_order", "error_message_returned",
                                                 "nothing_emitted_after_parse_error"]}
